@@ -836,6 +836,11 @@ func (cs *caseT) runCycle(plan []fault, recFailIdx int, ageSec int64, zeroTs boo
 						child.expectReads++
 					}
 				}
+				if child.expectReads == 0 && ft.pos >= 100 {
+					// nothing to download: whether a worker notices the cancellation before it finds its
+					// file missing is a race in downloadFiles; the job has no work either way
+					child.cancelAt = -1
+				}
 			}
 			child.onMut = func(kind, path string, data []byte) {
 				if kind == "writeManifest" {
